@@ -400,7 +400,8 @@ type CloserCase struct {
 	Write    bool   `json:"write"`
 	NilClose bool   `json:"nilclose,omitempty"`
 	CloseErr string `json:"closeerr,omitempty"`
-	Reenter  bool   `json:"reenter,omitempty"` // the close function uses the wrapper itself (an owner that closes everything it holds)
+	Reenter  bool   `json:"reenter,omitempty"`  // the close function uses the wrapper itself (an owner that closes everything it holds)
+	NoStream bool   `json:"nostream,omitempty"` // the wrapper is built around a nil stream: a handle that only carries the close function
 	Ops      []IOOp `json:"ops"`
 }
 
@@ -410,6 +411,7 @@ func genCloser(t *rapid.T) CloserCase {
 		NilClose: rapid.IntRange(0, 7).Draw(t, "nilclose") == 0,
 		CloseErr: rapid.SampledFrom([]string{"", "", "boom", "eof"}).Draw(t, "closeerr"),
 		Reenter:  rapid.IntRange(0, 3).Draw(t, "reenter") == 0,
+		NoStream: rapid.IntRange(0, 9).Draw(t, "nostream") == 0,
 		Ops:      rapid.SliceOfN(genIOOp([]string{"read", "read", "read", "close"}), 1, ev.Pick(20, 80)).Draw(t, "ops"),
 	}
 }
@@ -445,9 +447,14 @@ func checkCloser(_ *testing.T, v *ev.Verdict, c CloserCase) {
 				return scriptErr(c.CloseErr)
 			}
 		}
-		if c.Write {
+		switch {
+		case c.Write && c.NoStream:
+			wr = iocloser.NewWriteCloser(nil, cf)
+		case c.Write:
 			wr = iocloser.NewWriteCloser(st, cf)
-		} else {
+		case c.NoStream:
+			rd = iocloser.NewReadCloser(nil, cf)
+		default:
 			rd = iocloser.NewReadCloser(st, cf)
 		}
 		closed := false
@@ -492,6 +499,11 @@ func checkCloser(_ *testing.T, v *ev.Verdict, c CloserCase) {
 					v.Add(P, "iocloser:close-touches-stream", "op %d Close touched the wrapped stream: %v", i, st.calls[ncalls:])
 					return
 				}
+				continue
+			}
+			if c.NoStream && !closed {
+				// nothing to read from or write to; only Close (the close function runs exactly
+				// once) and the answers after Close are claimed for such a handle
 				continue
 			}
 			buf := make([]byte, op.N)
